@@ -253,7 +253,8 @@ func cmdForeign(args []string, w *bufio.Writer) {
 			}
 			outs = append(outs, o)
 		}
-		return map[string]interface{}{"outs": outs, "tree": walkAfero(composed, r, true)}
+		rows, _ := dumpRows(in.meta)
+		return map[string]interface{}{"outs": outs, "tree": walkAfero(composed, r, true), "rows": rows}
 	})
 	if !ok {
 		return
